@@ -128,6 +128,10 @@ def generate(rng, i, tier):
             # split differently); what an earlier job with the right dialect left behind must not matter
             other = [d for d in ([",", '"'], [";", '"'], ["|", "'"]) if d != files[jobs[j]["file"]]["dialect"]]
             jobs[j] = dict(jobs[j], read_as=rng.choice(other))
+    for j in range(len(jobs) - 1):
+        if rng.random() < 0.06:
+            # a transient read error while this job reads its file (the first read-open yields a few lines, then EIO)
+            jobs[j] = dict(jobs[j], read_fault=rng.randint(1, 4))
     for j in range(1, len(jobs)):
         if rng.random() < 0.12:
             # the file at that path is REPLACED (other records, maybe another header row) before the job runs
@@ -171,6 +175,10 @@ def reductions(sc):
         if job.get("read_as"):
             c = with_(sc)
             del c["jobs"][j]["read_as"]
+            yield c
+        if job.get("read_fault"):
+            c = with_(sc)
+            del c["jobs"][j]["read_fault"]
             yield c
     for fi, f in enumerate(sc["files"]):
         for rows in gen.rows_reductions(f["rows"]):
@@ -275,8 +283,71 @@ def _history(root, seed, jobs, dialects):
         if job.get("rewrite"):
             d = dialects[job["file"]]
             _write_rows(f"src/f{job['file']}.csv", job["rewrite"], d)
-        res.append(run_job(job, n, dialects))
+        if job.get("read_fault"):
+            with _ReadFault(f"f{job['file']}.csv", job["read_fault"]):
+                res.append(run_job(job, n, dialects))
+        else:
+            res.append(run_job(job, n, dialects))
     return res
+
+
+class _ReadFault:
+    """Transient read error: while active, the first text-mode read-open of the job's data file yields `after` lines
+    and then raises EIO (a flaky mount).  Whatever the job makes of it, nothing of it may stick for later jobs."""
+
+    def __init__(self, basename, after):
+        self.basename = basename
+        self.after = after
+        self.fired = 0
+
+    def __enter__(self):
+        import builtins
+
+        self.real = real = builtins.open
+        me = self
+
+        class Flaky:
+            def __init__(self, f):
+                self.f = f
+                self.n = 0
+
+            def __iter__(self):
+                return self
+
+            def __next__(self):
+                if self.n >= me.after:
+                    me.fired += 1
+                    raise OSError(5, "Input/output error (simulated)")
+                self.n += 1
+                return next(self.f)
+
+            def __enter__(self):
+                self.f.__enter__()
+                return self
+
+            def __exit__(self, *a):
+                return self.f.__exit__(*a)
+
+            def __getattr__(self, name):
+                return getattr(self.f, name)
+
+        st = {"done": False}
+
+        def opener(file, mode="r", *a, **kw):
+            f = real(file, mode, *a, **kw)
+            if not st["done"] and isinstance(file, str) and os.path.basename(file) == me.basename and mode in ("r", "rt"):
+                st["done"] = True
+                return Flaky(f)
+            return f
+
+        builtins.open = opener
+        return self
+
+    def __exit__(self, *a):
+        import builtins
+
+        builtins.open = self.real
+        return False
 
 
 def _write_rows(path, rows, d):
@@ -372,6 +443,11 @@ def execute(sc):
                 state.append("file already used in this process")
                 out.probe("job over a file already used in this process")
             d = _diff(hist[n], twin)
+            if job.get("read_fault"):
+                # which read of the job the fault lands in depends on what is cached: the faulted job itself is not compared,
+                # only the jobs after it
+                d = None
+                out.fault("read_error")
             text = gen.render(job["member"], f"src/f{job['file']}.csv")
             where = f"job {n} ({job['kind']}/{job['entry']}) {text!r} [{'; '.join(state) or 'first job, cold cache'}]"
             if d:
@@ -451,6 +527,7 @@ def execute(sc):
         out.probe("two jobs that differ only by blanks inside a string literal", any(ws_sibling(a["member"]) == b["member"] for a in jobs for b in jobs if a is not b))
         out.probe("file replaced between two jobs over the same path", False)
         out.probe("cache with half of an entry missing", False)
+        out.probe("job after a job that met a transient read error on the same file", any(a.get("read_fault") and a["file"] == b["file"] for x, a in enumerate(jobs) for b in jobs[x + 1 :]))
         out.probe("external function loaded from a job's own imports file after a csvpath with an unknown function", any(j.get("imports") for j in jobs) and any(j["member"]["comps"] == ["nosuchfunction()"] for j in jobs))
         out.probe("one file read with two dialects in one process", any(a["file"] == b["file"] and (a.get("read_as") or None) != (b.get("read_as") or None) for a in jobs for b in jobs))
         out.probe("exact repeat of a job", any(jobs[a] == jobs[b] for a in range(len(jobs)) for b in range(a + 1, len(jobs))))
